@@ -147,9 +147,14 @@ CheckLife(v) ==
   \* a GC run removes min(limit, n) of the n unlinked uploads older than the cut-off, record and bytes
   \cup If(isGc /\ v.ok =>
              /\ gone \subseteq C
-             /\ Cardinality(gone) = (IF o.limit > 0 THEN Min(o.limit, Cardinality(C)) ELSE Cardinality(C))
-             /\ \A u \in gone : u.loc \notin DiskNames(v.post),
+             /\ Cardinality(gone) = (IF o.limit > 0 THEN Min(o.limit, Cardinality(C)) ELSE Cardinality(C)),
           "UnlinkedCollectedAfterGrace")
+  \* ... judged per upload after every GC run: a record that is gone has no bytes left (whether or not other files
+  \* of the batch were already missing), a record that stays keeps the bytes it had
+  \cup If(isGc => \A u \in Rg(v.pre.up) :
+                     IF u.id \notin UpIds(v.post) THEN u.loc \notin DiskNames(v.post)
+                     ELSE HasBytes(v.pre, u) => HasBytes(v.post, UpOf(v.post, u.id)),
+          "CollectedWithBytes")
   \* nothing else is removed or altered, on any step
   \cup If(/\ \A u \in gone : isGc /\ u \in C
           /\ \A n \in goneFiles : isGc /\ \E u \in C : u.loc = n
